@@ -156,6 +156,9 @@ def run(tier: str, seed: int) -> int:
     cases = chk.generate("Gen_C13")
     obs = drive("harness.props.c13", "drive_case", cases)
     verdicts = chk.judge("Judge_C13", obs)
+    from .. import corrupt as _corrupt
+
+    chk.binding_selftest("Judge_C13", obs, verdicts, _corrupt.c13)
     by_id = {o["id"]: {"marker_item": dict(pipeline_dict(o["G"])["transformations"][4], inside_nest=bool(o.get("nest"))), "observed": o["ret"]["out"] if o["ret"]["ok"] else o["ret"]["exc"] + ": " + uncps(o["ret"]["msg"])} for o in obs}
     chk.absorb(verdicts, by_id, {c["id"]: c for c in cases})
     nontrivial = sum(1 for c in cases if sum(len(c["G"][k]["conds"]) for k in ("rule", "item", "field")) >= 1)
